@@ -4,8 +4,10 @@ import json, os, glob, sys
 V = os.path.dirname(os.path.dirname(os.path.abspath(__file__)))
 props = [json.loads(l) for l in open(os.path.join(V, 'properties.jsonl'))]
 entries = {}
+claimed = set(open(os.path.join(V, 'props', 'claimed.txt')).read().split())
 for p in sorted(glob.glob(os.path.join(V, 'props', '*.manifest.json'))):
-    e = json.load(open(p)); entries[e['property_id']] = e
+    e = json.load(open(p))
+    if e['property_id'] in claimed: entries[e['property_id']] = e
 na_reasons = json.load(open(os.path.join(V, 'props', 'not_applicable.json'))) if os.path.exists(os.path.join(V, 'props', 'not_applicable.json')) else {}
 engines = {}
 for e in entries.values():
